@@ -1,7 +1,7 @@
 #!/bin/bash
 # tools/intake_mut.sh Cxx <slot>: verify every candidate in /tmp/mut/Cxx-out independently and keep the confirmed ones as seeded/Cxx-n/.
 p=$1; slot=${2:-0}; out=/tmp/mut/$p-out
-for n in 1 2 3; do
+for n in 1 2 3 4; do
   [ -f $out/patch$n.diff ] && [ -f $out/meta$n.json ] && [ -f $out/demo${n}_test.go ] || continue
   /verif/tools/verify_seeded.sh $out $n $slot > /tmp/mut/$p-out/verify$n.log 2>&1
   python3 - $p $n <<'PY'
